@@ -441,6 +441,9 @@ func (e *evaluator) eval1(v ssa.Value) *term {
 		if x.IsNil() {
 			return S("nil")
 		}
+		if x.Value == nil {
+			return S("zero:" + x.Type().String()) // zero value of a struct / array type
+		}
 		return S("const:" + x.Value.ExactString())
 	case *ssa.Parameter:
 		return S(x.Name())
